@@ -439,3 +439,94 @@ Proof.
   intros [= <-]. unfold lc_name_location. cbn [lcn_has_file lcn_start lcn_text].
   repeat split; [f_equal; f_equal; lia|lia].
 Qed.
+
+(* ------------------------------------------------------------------ the specification is a left fold
+
+   Scanning p ++ q up to an offset in q is scanning p to its end and continuing in q from the (line, column)
+   reached, unless the cut separates the \r and the \n of one \r\n terminator.  Together with the
+   one-character facts below this characterises [lc_scan]: \n, \r\n and a lone \r each add one line and
+   reset the column to 1; any other scalar value adds one column. *)
+Definition crlf_cut (p q : str) : bool :=
+  lc_ends_with_cr p && match q with c :: _ => c =? c_lf | [] => false end.
+
+Lemma ends_with_cr_cons c r : r <> [] -> lc_ends_with_cr (c :: r) = lc_ends_with_cr r.
+Proof.
+  intros Hr. unfold lc_ends_with_cr. cbn [rev]. destruct (rev r) as [|x t] eqn:E.
+  - apply (f_equal (@rev N)) in E. rewrite rev_involutive in E. cbn in E. congruence.
+  - reflexivity.
+Qed.
+
+Lemma crlf_cut_cons c r q : r <> [] -> crlf_cut (c :: r) q = crlf_cut r q.
+Proof. intros Hr. unfold crlf_cut. now rewrite ends_with_cr_cons. Qed.
+
+Lemma crlf_cut_nil q : crlf_cut [] q = false.
+Proof. reflexivity. Qed.
+
+Lemma lc_scan_app n : forall p, (length p <= n)%nat -> forall q o line col,
+  crlf_cut p q = false ->
+  lc_scan (p ++ q) (blen p + o) line col =
+    match lc_scan p (blen p) line col with
+    | Some (l, c) => lc_scan q o l c
+    | None => None
+    end.
+Proof.
+  induction n as [|n IH]; intros p Hlen q o line col Hcut.
+  - destruct p; [|cbn in Hlen; lia]. cbn [app blen lc_scan]. now replace (0 + o) with o by lia.
+  - destruct p as [|c r]; [apply (IH []); [cbn; lia|exact Hcut]|].
+    cbn [length] in Hlen. assert (Hr : (length r <= n)%nat) by lia.
+    pose proof (u8len_pos c) as Hpos. cbn [app blen lc_scan].
+    replace (u8len c + blen r + o <? u8len c) with false by lia.
+    replace (u8len c + blen r <? u8len c) with false by lia.
+    assert (Hcut_r : crlf_cut r q = false).
+    { destruct r as [|c2 r2]; [apply crlf_cut_nil|]. rewrite <- (crlf_cut_cons c); [exact Hcut|discriminate]. }
+    destruct (N.eqb_spec c c_lf) as [->|Hlf].
+    + replace (u8len c_lf) with 1 by reflexivity.
+      replace (1 + blen r + o - 1) with (blen r + o) by lia.
+      replace (1 + blen r - 1) with (blen r) by lia. now apply IH.
+    + destruct (N.eqb_spec c c_cr) as [->|Hcr].
+      * replace (u8len c_cr) with 1 by reflexivity.
+        destruct r as [|c2 r2].
+        -- cbn [app blen]. replace (1 + 0 + o - 1) with o by lia. replace (1 + 0 - 1) with 0 by lia.
+           cbn [lc_scan]. replace (0 =? 0) with true by reflexivity.
+           destruct q as [|c3 q']; [reflexivity|].
+           unfold crlf_cut in Hcut. replace (lc_ends_with_cr [c_cr]) with true in Hcut by reflexivity.
+           cbn [andb] in Hcut. rewrite Hcut. reflexivity.
+        -- cbn [app blen]. destruct (N.eqb_spec c2 c_lf) as [->|Hlf2].
+           ++ replace (u8len c_lf) with 1 by reflexivity.
+              replace (1 + (1 + blen r2) + o =? 1) with false by lia.
+              replace (1 + (1 + blen r2) =? 1) with false by lia.
+              replace (1 + (1 + blen r2) + o - 2) with (blen r2 + o) by lia.
+              replace (1 + (1 + blen r2) - 2) with (blen r2) by lia.
+              cbn [length] in Hr. apply (IH r2 ltac:(lia)).
+              destruct r2 as [|c3 r3]; [apply crlf_cut_nil|].
+              rewrite <- (crlf_cut_cons c_lf); [exact Hcut_r|discriminate].
+           ++ replace (1 + (u8len c2 + blen r2) + o - 1) with (blen (c2 :: r2) + o) by (cbn [blen]; lia).
+              replace (1 + (u8len c2 + blen r2) - 1) with (blen (c2 :: r2)) by (cbn [blen]; lia).
+              apply (IH (c2 :: r2) Hr). exact Hcut_r.
+      * replace (u8len c + blen r + o - u8len c) with (blen r + o) by lia.
+        replace (u8len c + blen r - u8len c) with (blen r) by lia. now apply IH.
+Qed.
+
+Theorem line_col_compositional p q o line col :
+  crlf_cut p q = false ->
+  lc_scan (p ++ q) (blen p + o) line col =
+    match lc_scan p (blen p) line col with
+    | Some (l, c) => lc_scan q o l c
+    | None => None
+    end.
+Proof. apply (lc_scan_app (length p) p (Nat.le_refl _)). Qed.
+
+Theorem line_col_steps line col :
+  lc_scan [c_lf] 1 line col = Some (line + 1, 1) /\
+  lc_scan [c_cr; c_lf] 2 line col = Some (line + 1, 1) /\
+  lc_scan [c_cr] 1 line col = Some (line + 1, 1) /\
+  lc_scan [c_cr; c_lf] 1 line col = Some (line, col + 1) /\
+  (forall c, c <> c_lf -> c <> c_cr -> lc_scan [c] (u8len c) line col = Some (line, col + 1)) /\
+  (forall c k, 0 < k -> k < u8len c -> lc_scan [c] k line col = Some (line, col)).
+Proof.
+  repeat split; try reflexivity.
+  - intros c Hlf Hcr. cbn [lc_scan]. replace (u8len c <? u8len c) with false by lia.
+    replace (c =? c_lf) with false by lia. replace (c =? c_cr) with false by lia.
+    now replace (u8len c - u8len c =? 0) with true by lia.
+  - intros c k H0 Hk. cbn [lc_scan]. now replace (k <? u8len c) with true by lia.
+Qed.
